@@ -53,6 +53,6 @@ if __name__ == "__main__":
     for p in props:
         for i in (1, 2, 3):
             try:
-                confirm(p, i, jobs=6)
+                confirm(p, i, jobs=int(os.environ.get("CONFIRM_JOBS", "6")))
             except Exception as ex:
                 print(p, i, "ERROR", ex, flush=True)
